@@ -154,4 +154,33 @@ PROPS.update({
                        "request none, a non-batch request invokes at most one member; reads consume exactly one message (C06/C17 contracts).",
         "assumptions": _COMMON_ASSUME + ["delivery semantics of real TCP, forged matching sequence numbers"],
     },
+    "C15": {
+        "modules": ["specs.socket_model", "specs.seqdict", "specs.opaque", "specs.storage_model", "contracts.nameserver_locks"],
+        "contracts": ["Pyro5.nameserver.NameServer.count", "Pyro5.nameserver.NameServer.lookup", "Pyro5.nameserver.NameServer.register",
+                      "Pyro5.nameserver.NameServer.set_metadata", "Pyro5.nameserver.NameServer.remove", "Pyro5.nameserver.NameServer.list",
+                      "Pyro5.nameserver.NameServer.yplookup"],
+        "harness": "replay/c15.py",
+        "explanation": "monitor discipline of the seven public NameServer operations: every storage access (contains, getitem, setitem, delitem, len, iteration, "
+                       "optimized queries, everything, remove_items) is made while holding self.lock (M1, ghost lock depth on every path incl. exceptional ones), all "
+                       "accesses of one operation lie in ONE outermost critical section (M3; nested operations such as remove->list re-enter the held RLock), the lock is "
+                       "released on every exit.  With mutual exclusion this makes every operation atomic for every interleaving and any number of clients.",
+        "assumptions": ["threading.RLock provides mutual exclusion; each single storage method is atomic (dict operation under the GIL / one sqlite transaction)",
+                        "the step from M1+M3 to linearizability is the standard monitor argument (DESIGN 2.5), not machine checked",
+                        "the storage is the abstract interface Sigma of specs/storage_model.py"],
+    },
+    "C18": {
+        "modules": ["specs.socket_model", "specs.seqdict", "specs.opaque", "specs.daemon_model", "contracts.threadpool"],
+        "contracts": ["Pyro5.svr_threads.Pool.process", "Pyro5.svr_threads.Pool.notify_done", "Pyro5.svr_threads.Pool.close", "Pyro5.svr_threads.Worker.run"],
+        "harness": "replay/c18.py",
+        "explanation": "Pool.process: the job is handed to exactly one worker that was idle or is a newly started one (started only while fewer than THREADPOOL_SIZE exist), "
+                       "that worker is busy afterwards; NoFreeWorkersError exactly when nobody is idle and THREADPOOL_SIZE workers exist, with nothing changed; PoolError when "
+                       "closed.  notify_done: the worker leaves busy and is idle again or told to exit, never both.  close: closed set, only None handed out and only to "
+                       "idle workers, no lock held while joining, never joins itself.  All three keep the monitor invariant (idle, busy disjoint, |idle|+|busy| <= "
+                       "THREADPOOL_SIZE) and access idle/busy/closed only while holding count_lock in one critical section.  Worker.run: the job in the slot is called "
+                       "exactly once, the slot is cleared before the worker reports done and never written while the pool owns it.",
+        "assumptions": ["threading.Lock gives mutual exclusion; M1+M3+sequential invariant => invariant for every interleaving (DESIGN 2.5), not machine checked",
+                        "set cardinalities are tracked as ghost integers with the facts card>=1 for a set with a known member",
+                        "thread start/exit timing, join time-outs and liveness of close() are outside the technique",
+                        "the refusal path in SocketServer_Threadpool.events (NoFreeWorkersError -> denyConnection) is covered by ClientConnectionJob.denyConnection's contract (C05) and the native harness"],
+    },
 })
